@@ -93,8 +93,15 @@ func (s *Slicer) Origins(v ssa.Value) []ssa.Value {
 			addTerm(v)
 		case *ssa.Extract:
 			if s.KeepExtract {
-				if _, isCall := x.Tuple.(*ssa.Call); isCall {
+				if call, isCall := x.Tuple.(*ssa.Call); isCall {
 					addTerm(x)
+					if s.ThroughCallArgs != nil {
+						for _, a := range call.Call.Args {
+							if s.ThroughCallArgs(call, a) {
+								visit(a, -1, depth)
+							}
+						}
+					}
 					return
 				}
 			}
